@@ -29,6 +29,13 @@ type world struct {
 	asset map[string]uint64 // denom -> asset id
 	app   map[string]uint64 // app name -> id
 	notes []string
+	hist  []histRec // hooks executed while the history of the state was produced (judged like plain blocks)
+}
+
+type histRec struct {
+	What     string
+	Returned bool
+	PanicS   string
 }
 
 func dec(s string) sdk.Dec { return sdk.MustNewDecFromStr(s) }
